@@ -7,28 +7,58 @@ variable {σ : Type}
 /-! ## ghost bookkeeping -/
 
 theorem InvL.ghost {g g' : Ghost} {s : KState ℚ σ} (hi : InvL g s) (hrun : ∀ p, g.run = some p → g'.run = some p)
-    (hlv : g'.lv = true → g.lv = true) : InvL g' s :=
-  hi.transfer (Nat.le_refl _) (fun _ => rfl) (fun _ h => h) hrun hlv (fun _ _ h => h)
-    (fun e L p hL hm _ => Or.inr ⟨L, hL, hm⟩)
+    (hlv : g'.lv = true → g.lv = true)
+    (hH : ∀ p t, Held g s p t → g'.run ≠ some p → Held g' s p t) : InvL g' s :=
+  hi.transfer' (Nat.le_refl _) (fun _ => rfl) (fun _ h => h) hrun hlv (fun p t h _ hr => hH p t h hr)
 
-/-- fewer callbacks remain -/
+/-- a callback that is not a `_resume` has been run: fewer callbacks remain -/
 theorem Inv.ghost_rem {g : Ghost} {s : KState ℚ σ} (hi : Inv g s) (rest : List Cb)
-    (hsub : ∀ cb, cb ∈ rest → cb ∈ g.rem) (hcount : ∀ p, rest.count (.resume p) ≤ 1) :
-    Inv { g with rem := rest } s :=
-  ⟨hi.c.ghost hsub hcount rfl (fun p hp => hi.c.pend p (Or.inr hp)), hi.q, hi.l.ghost (fun _ h => h) (fun h => h)⟩
+    (hsub : ∀ cb, cb ∈ rest → cb ∈ g.rem) (hcount : ∀ p, rest.count (.resume p) ≤ 1)
+    (hkeep : ∀ p, Cb.resume p ∈ g.rem → Cb.resume p ∈ rest) :
+    Inv { g with rem := rest } s := by
+  refine ⟨hi.c.ghost hsub hcount rfl (fun p hp => hi.c.pend p (Or.inr hp)), hi.q,
+    hi.l.ghost (fun _ h => h) (fun h => h) ?_⟩
+  intro p t h _
+  rcases h with ⟨h1, h2⟩ | h | h
+  · exact Or.inl ⟨h1, hkeep p h2⟩
+  · exact Or.inr (Or.inl h)
+  · exact Or.inr (Or.inr h)
 
 /-- a process becomes the running one -/
 theorem Inv.ghost_run {g : Ghost} {s : KState ℚ σ} (hi : Inv g s) (p : EvId)
     (h : (s.ev p).out = none ∧ (s.ev p).kind = .proc ∧ Unreg s p) (hg : g.run = none) :
     Inv { g with run := some p } s :=
   ⟨hi.c.ghost (fun _ h => h) hi.c.rem_count rfl (fun p' hp' => by cases hp'; exact h), hi.q,
-    hi.l.ghost (fun p' hp' => by rw [hg] at hp'; cases hp') (fun h => h)⟩
+    hi.l.ghost (fun p' hp' => by rw [hg] at hp'; cases hp') (fun h => h) (fun _ _ h _ => h)⟩
 
-/-- the running process stops running without being registered: allowed if it is finished, has no record, or its
-target is processed (the `_resume` loop ran out of fuel) -/
+/-- the callback `_resume p` is taken off the pending list and `p` becomes the running process -/
+theorem Inv.ghost_pop_run {g : Ghost} {s : KState ℚ σ} (hi : Inv g s) (p : EvId) (rest : List Cb)
+    (hrem : g.rem = .resume p :: rest) (hg : g.run = none) : Inv { g with rem := rest, run := some p } s := by
+  have hsub : ∀ c, c ∈ rest → c ∈ g.rem := fun c hc => by rw [hrem]; exact List.mem_cons_of_mem _ hc
+  have hcnt : ∀ q, rest.count (.resume q) ≤ 1 := by
+    intro q
+    have := hi.c.rem_count q
+    rw [hrem, List.count_cons] at this
+    omega
+  refine ⟨hi.c.ghost hsub hcnt rfl ?_, hi.q, hi.l.ghost (fun p' hp' => by rw [hg] at hp'; cases hp') (fun h => h) ?_⟩
+  · intro p' hp'
+    cases hp'
+    exact hi.c.pend p (Or.inl (by rw [hrem]; exact List.mem_cons_self))
+  · intro q t h hr
+    rcases h with ⟨h1, h2⟩ | h | h
+    · refine Or.inl ⟨h1, ?_⟩
+      rw [hrem] at h2
+      rcases List.mem_cons.mp h2 with h2 | h2
+      · cases h2; exact absurd rfl hr
+      · exact h2
+    · exact Or.inr (Or.inl h)
+    · exact Or.inr (Or.inr h)
+
+/-- the running process stops running without being registered: allowed if it is finished, has no record, or is held
+in one of the other ways (`Held`) -/
 theorem Inv.ghost_unrun {g : Ghost} {s : KState ℚ σ} (hi : Inv g s) (p : EvId) (hg : g.run = some p)
     (h : g.lv = true → ∀ pr, s.proc? p = some pr → (s.ev p).out = none → ∃ t, pr.target = some t ∧ t < s.events.size ∧
-      ((s.ev t).cbs = none ∨ ∃ L, (s.ev t).cbs = some L ∧ Cb.resume p ∈ L)) :
+      Held { g with run := none } s p t) :
     Inv { g with run := none } s := by
   refine ⟨hi.c.ghost (fun _ h => h) hi.c.rem_count rfl (fun p' hp' => by cases hp'), hi.q, ⟨?_⟩⟩
   intro hlv p' pr hpp hout _
@@ -145,19 +175,20 @@ theorem Inv.register {g : Ghost} {s s3 : KState ℚ σ} (p e' : EvId) (hg : g.ru
         have : (s.addCb e' (.resume p')).proc? p' = s.proc? p' := rfl
         rw [this, hp0] at hpp
         cases hpp
-        refine ⟨e', ht0, by rw [hsz]; exact hy.1, Or.inr ⟨L ++ [.resume p'], by rw [hcb, if_pos rfl], by simp⟩⟩
+        refine ⟨e', ht0, by rw [hsz]; exact hy.1, Or.inr (Or.inl ⟨L ++ [.resume p'], by rw [hcb, if_pos rfl], by simp⟩)⟩
       · rw [ho] at hout
         obtain ⟨t, h1, h2, h3⟩ := hi.l.live hlv p' pr hpp hout (by rw [hg]; intro hc; cases hc; exact hp rfl)
-        refine ⟨t, h1, by rw [hsz]; exact h2, ?_⟩
-        rw [hcb]
-        split
-        · rename_i ht; subst ht
-          right
-          refine ⟨_, rfl, ?_⟩
-          rcases h3 with h3 | ⟨L1, h3, h4⟩
-          · rw [hL] at h3; cases h3
-          · rw [hL] at h3; cases h3; exact List.mem_append_left _ h4
-        · exact h3
+        refine ⟨t, h1, by rw [hsz]; exact h2, h3.keep h2 ⟨rfl, rfl, rfl⟩ ?_ ?_⟩
+        · intro e _ hc
+          rw [hcb]; split
+          · rename_i he; subst he; rw [hL] at hc; cases hc
+          · exact hc
+        · intro e L1 hL1 hm1
+          rw [hcb]; split
+          · rename_i he; subst he
+            rw [hL] at hL1; cases hL1
+            exact ⟨_, rfl, List.mem_append_left _ hm1⟩
+          · exact ⟨L1, hL1, hm1⟩
 
 /-- **`finishProc`**: the process's own event is triggered — it was pending, and is scheduled for the first time -/
 theorem Inv.finishProc {g : Ghost} {s : KState ℚ σ} (p : EvId) (pr : ProcRec σ) (o : Outcome) (hg : g.run = some p)
@@ -217,8 +248,12 @@ theorem Inv.finishProc {g : Ghost} {s : KState ℚ σ} (p : EvId) (pr : ProcRec 
       rw [if_neg (fun hc => hp hc.1)] at hout'
       obtain ⟨t, h1', h2', h3'⟩ := hi.l.live hlv p' pr' hpp' hout' (by rw [hg]; intro hc; cases hc; exact hp rfl)
       refine ⟨t, h1', by show t < (s.setOut p o).events.size; rw [hsz]; exact h2', ?_⟩
-      show ((s.setOut p o).ev t).cbs = none ∨ ∃ L, ((s.setOut p o).ev t).cbs = some L ∧ _
-      rw [hcb]; exact h3'
+      refine h3'.keep h2' ⟨rfl, rfl, rfl⟩ ?_ ?_
+      · intro e _ hc
+        show ((s.setOut p o).ev e).cbs = none
+        rw [hcb]; exact hc
+      · intro e L1 hL1 hm1
+        exact ⟨L1, by show ((s.setOut p o).ev e).cbs = some L1; rw [hcb]; exact hL1, hm1⟩
 
 /-- the process record is updated at a yield -/
 theorem Inv.setProc_run {g : Ghost} {s : KState ℚ σ} (p : EvId) (pr : ProcRec σ) (hg : g.run = some p) (hi : Inv g s) :
@@ -239,31 +274,39 @@ registered exactly once on its new target, or finished and scheduled exactly onc
 theorem Inv.resume (body : σ → Resume → Burst ℚ σ) (p : EvId) {g : Ghost} (hg : g.run = some p)
     (hnr : Cb.resume p ∉ g.rem) : ∀ (fuel : Nat) (e : EvId) (s : KState ℚ σ), Inv g s →
     (fuel = 0 → g.lv = true → ∀ pr, s.proc? p = some pr → (s.ev p).out = none → ∃ t, pr.target = some t ∧ t < s.events.size ∧
-      ((s.ev t).cbs = none ∨ ∃ L, (s.ev t).cbs = some L ∧ Cb.resume p ∈ L)) →
-    SafeResume body p fuel e s → Inv { g with run := none } (_root_.resume body p fuel e s)
-  | 0, e, s, hi, h0, _ => hi.ghost_unrun p hg (h0 rfl)
-  | fuel + 1, e, s, hi, _, hs => by
+      (s.ev t).cbs = none) →
+    SafeResume body p fuel e s → (g.strict = true → NoHangResume body p fuel e s) →
+    Inv { g with run := none } (_root_.resume body p fuel e s)
+  | 0, e, s, hi, h0, _, hh => by
+    refine hi.ghost_unrun p hg ?_
+    intro hlv pr hpp hout
+    rcases Bool.eq_false_or_eq_true g.strict with hst | hst
+    · exact absurd (hh hst) (by simp [NoHangResume])
+    · obtain ⟨t, h1, h2, h3⟩ := h0 rfl hlv pr hpp hout
+      exact ⟨t, h1, h2, Or.inr (Or.inr ⟨hst, h3⟩)⟩
+  | fuel + 1, e, s, hi, _, hs, hh => by
     unfold _root_.resume
     unfold SafeResume at hs
+    unfold NoHangResume at hh
     split
     · rename_i hp
       exact hi.ghost_unrun p hg (fun _ pr hpp => by rw [hp] at hpp; cases hpp)
     · rename_i pr hp
-      rw [hp] at hs
-      simp only at hs ⊢
+      rw [hp] at hs hh
+      simp only at hs hh ⊢
       obtain ⟨hsb, hs2⟩ := hs
       have hi1 : Inv g ((_root_.deliver s p e).1.emit (.resumed p (_root_.deliver s p e).2 (_root_.deliver s p e).1.now)) :=
         (hi.deliver p e).emit _
       have hib := Inv.runBurst p _ _ hi1 hsb
       have hy := SafeBurst.yielded p _ _ hsb
       generalize _root_.runBurst p (body pr.st (_root_.deliver s p e).2)
-        ((_root_.deliver s p e).1.emit (.resumed p (_root_.deliver s p e).2 (_root_.deliver s p e).1.now)) = bt at hib hy hs2 ⊢
+        ((_root_.deliver s p e).1.emit (.resumed p (_root_.deliver s p e).2 (_root_.deliver s p e).1.now)) = bt at hib hy hs2 hh ⊢
       split
       · exact Inv.finishProc p pr _ hg hib hnr
       · exact Inv.finishProc p pr _ hg hib hnr
       · rename_i e' st' hbt
-        rw [hbt] at hs2
-        simp only at hs2
+        rw [hbt] at hs2 hh
+        simp only at hs2 hh
         have hye := hy e' st' hbt
         have hi2 : Inv g (bt.1.setProc p { st := st', target := some e' }) := Inv.setProc_run p _ hg hib
         have hye2 : SafeYield (bt.1.setProc p { st := st', target := some e' }) p e' := hye
@@ -273,14 +316,14 @@ theorem Inv.resume (body : σ → Resume → Burst ℚ σ) (p : EvId) {g : Ghost
         · rename_i s3 hr
           exact Inv.register p e' hg hi2 hnr hye2 hpr2 hr
         · rename_i hr
-          rw [hr] at hs2
-          simp only at hs2
-          refine Inv.resume body p hg hnr fuel e' _ hi2 ?_ hs2
+          rw [hr] at hs2 hh
+          simp only at hs2 hh
+          refine Inv.resume body p hg hnr fuel e' _ hi2 ?_ hs2 hh
           intro _ _ pr' hpp' _
           obtain ⟨pr2, h1, h2⟩ := hpr2
           rw [h1] at hpp'
           cases hpp'
-          refine ⟨e', h2, hye2.1, Or.inl ?_⟩
+          refine ⟨e', h2, hye2.1, ?_⟩
           unfold _root_.register at hr
           split at hr
           · rename_i hproc
@@ -359,7 +402,6 @@ theorem Inv.detach {g : Ghost} {s : KState ℚ σ} (hi : Inv g s) (p t : EvId) (
       · rename_i he; subst he; rw [hc]; rfl
       · exact hc
     · intro e L q hL hm hrun
-      right
       rw [hcbs]; split
       · rename_i he; subst he
         rw [hL]
@@ -370,40 +412,42 @@ theorem Inv.detach {g : Ghost} {s : KState ℚ σ} (hi : Inv g s) (p t : EvId) (
 /-- **interrupt delivery keeps the invariant** -/
 theorem Inv.deliverInterrupt (body : σ → Resume → Burst ℚ σ) (fuel : Nat) (iv p : EvId) {g : Ghost} {s : KState ℚ σ}
     (hi : Inv g s) (hg : g.run = none) (hnr : Cb.resume p ∉ g.rem) (hfuel : g.lv = true → 0 < fuel)
-    (hs : SafeIntr body fuel iv p s) : Inv g (_root_.deliverInterrupt body fuel iv p s) := by
+    (hs : SafeIntr body fuel iv p s) (hh : g.strict = true → NoHangIntr body fuel iv p s) :
+    Inv g (_root_.deliverInterrupt body fuel iv p s) := by
   have hback : ∀ x : KState ℚ σ, Inv { { g with run := some p } with run := none } x → Inv g x := by
     intro x hx
     have : ({ { g with run := some p } with run := none } : Ghost) = g := by
       cases g; simp only at hg; subst hg; rfl
     rw [this] at hx; exact hx
   have h0 : ∀ x : KState ℚ σ, fuel = 0 → g.lv = true → ∀ pr, x.proc? p = some pr → (x.ev p).out = none →
-      ∃ t, pr.target = some t ∧ t < x.events.size ∧ ((x.ev t).cbs = none ∨ ∃ L, (x.ev t).cbs = some L ∧ Cb.resume p ∈ L) := by
+      ∃ t, pr.target = some t ∧ t < x.events.size ∧ (x.ev t).cbs = none := by
     intro x hf hl
     exact absurd (hfuel hl) (by rw [hf]; exact Nat.lt_irrefl 0)
   unfold _root_.deliverInterrupt
   unfold SafeIntr at hs
+  unfold NoHangIntr at hh
   split
   · exact hi
   · rename_i hnt
-    rw [if_neg hnt] at hs
+    rw [if_neg hnt] at hs hh
     have hout := out_none_of_not_triggered s p hnt
     split
     · exact hi
     · rename_i pr hp
-      rw [hp] at hs
-      simp only at hs
+      rw [hp] at hs hh
+      simp only at hs hh
       split
       · rename_i t ht
-        rw [ht] at hs
-        simp only at hs
+        rw [ht] at hs hh
+        simp only at hs hh
         apply hback
         exact Inv.resume body p (g := { g with run := some p }) rfl hnr fuel iv _
-          (hi.detach p t pr hg hp ht hout) (h0 _) hs
+          (hi.detach p t pr hg hp ht hout) (h0 _) hs hh
       · rename_i ht
-        rw [ht] at hs
-        simp only at hs
+        rw [ht] at hs hh
+        simp only at hs hh
         apply hback
-        refine Inv.resume body p (g := { g with run := some p }) rfl hnr fuel iv _ ?_ (h0 _) hs
+        refine Inv.resume body p (g := { g with run := some p }) rfl hnr fuel iv _ ?_ (h0 _) hs hh
         refine hi.ghost_run p ⟨hout, hi.c.procs p pr hp, ?_⟩ hg
         intro e L hL hm
         obtain ⟨_, ⟨pr', h2, h3⟩, _⟩ := hi.c.reg e L p hL hm
@@ -429,58 +473,68 @@ theorem not_mem_tail_of_count {p : EvId} {rest : List Cb} (h : (Cb.resume p :: r
 /-- **one callback invocation keeps the invariant** (and is then no longer among those still to run) -/
 theorem Inv.runCb (body : σ → Resume → Burst ℚ σ) (fuel : Nat) {g : Ghost} (l : LoopSt ℚ σ) (cb : Cb) (rest : List Cb)
     (hrem : g.rem = cb :: rest) (hg : g.run = none) (hfuel : g.lv = true → 0 < fuel)
-    (hi : Inv g l.s) (hs : SafeCb body fuel g.e0 l.s cb) :
+    (hi : Inv g l.s) (hs : SafeCb body fuel g.e0 l.s cb) (hh : g.strict = true → NoHangCb body fuel g.e0 l.s cb) :
     Inv { g with rem := rest } (_root_.runCb body fuel g.e0 l cb).s := by
   have hsub : ∀ c, c ∈ rest → c ∈ g.rem := fun c hc => by rw [hrem]; exact List.mem_cons_of_mem _ hc
   have hcnt : ∀ p, rest.count (.resume p) ≤ 1 := count_le_one_tail (by rw [← hrem]; exact hi.c.rem_count)
-  have hw : Inv { g with rem := rest } l.s := hi.ghost_rem rest hsub hcnt
+  -- a callback that is not a `_resume` simply leaves the pending list
+  have hw : (∀ p, cb ≠ .resume p) → Inv { g with rem := rest } l.s := by
+    intro hne
+    refine hi.ghost_rem rest hsub hcnt ?_
+    intro p hp
+    rw [hrem] at hp
+    rcases List.mem_cons.mp hp with h | h
+    · exact absurd h.symm (hne p)
+    · exact h
   unfold _root_.runCb
   simp only
   cases cb with
   | resume p =>
     simp only
-    have hpend := hi.c.pend p (Or.inl (by rw [hrem]; exact List.mem_cons_self))
     have hnr : Cb.resume p ∉ rest := not_mem_tail_of_count (by rw [← hrem]; exact hi.c.rem_count p)
-    have hrun : Inv { { g with rem := rest } with run := some p } l.s := hw.ghost_run p hpend hg
-    have hback : ({ { { g with rem := rest } with run := some p } with run := none } : Ghost) = { g with rem := rest } := by
+    have hrun : Inv { g with rem := rest, run := some p } l.s := hi.ghost_pop_run p rest hrem hg
+    have hback : ({ { g with rem := rest, run := some p } with run := none } : Ghost) = { g with rem := rest } := by
       cases g; simp only at hg; subst hg; rfl
     rw [← hback]
-    refine Inv.resume body p (g := { { g with rem := rest } with run := some p }) rfl hnr fuel g.e0 l.s hrun ?_ hs
-    intro _ hlv pr hpp hout
-    exact hi.l.live hlv p pr hpp hout (by rw [hg]; simp)
-  | probe tag => exact hw.emit _
-  | stop => exact hw
+    refine Inv.resume body p (g := { g with rem := rest, run := some p }) rfl hnr fuel g.e0 l.s hrun ?_ hs hh
+    intro hf hlv
+    exact absurd (hfuel hlv) (by rw [hf]; exact Nat.lt_irrefl 0)
+  | probe tag => exact (hw (fun p h => by cases h)).emit _
+  | stop => exact hw (fun p h => by cases h)
   | intr iv =>
     simp only
     simp only [SafeCb] at hs
+    simp only [NoHangCb] at hh
+    have hw' := hw (fun p h => by cases h)
     split
     · rename_i p hk
-      rw [hk] at hs
-      simp only at hs
+      rw [hk] at hs hh
+      simp only at hs hh
       have hiv : iv = g.e0 := hi.c.rem_intr iv (by rw [hrem]; exact List.mem_cons_self)
       have hnr : Cb.resume p ∉ rest := by
         intro hm
         have := (hi.c.pend_intr p (hsub _ hm)).2
         rw [← hiv, hk] at this
         exact this rfl
-      exact Inv.deliverInterrupt body fuel iv p hw hg hnr hfuel hs
-    · exact hw
+      exact Inv.deliverInterrupt body fuel iv p hw' hg hnr hfuel hs hh
+    · exact hw'
   | check c =>
-    exact hw.condCheck c _ (hi.c.rem_check c (by rw [hrem]; exact List.mem_cons_self))
-  | build c => exact hw.condBuild c
-  | trigPut r => exact hw.triggerPut r
-  | trigGet r => exact hw.triggerGet r
+    exact (hw (fun p h => by cases h)).condCheck c _ (hi.c.rem_check c (by rw [hrem]; exact List.mem_cons_self))
+  | build c => exact (hw (fun p h => by cases h)).condBuild c
+  | trigPut r => exact (hw (fun p h => by cases h)).triggerPut r
+  | trigGet r => exact (hw (fun p h => by cases h)).triggerGet r
 
 /-- **the whole callback loop of a step keeps the invariant** -/
 theorem Inv.foldCbs (body : σ → Resume → Burst ℚ σ) (fuel : Nat) : ∀ (cbs : List Cb) (g : Ghost) (l : LoopSt ℚ σ),
     g.rem = cbs → g.run = none → (g.lv = true → 0 < fuel) → Inv g l.s → SafeCbs body fuel g.e0 cbs l →
+    (g.strict = true → NoHangCbs body fuel g.e0 cbs l) →
     Inv { g with rem := [] } (cbs.foldl (_root_.runCb body fuel g.e0) l).s
-  | [], g, l, hrem, _, _, hi, _ => by
+  | [], g, l, hrem, _, _, hi, _, _ => by
     have : ({ g with rem := [] } : Ghost) = g := by cases g; simp only at hrem; subst hrem; rfl
     rw [this]; exact hi
-  | cb :: rest, g, l, hrem, hg, hfuel, hi, hs => by
+  | cb :: rest, g, l, hrem, hg, hfuel, hi, hs, hh => by
     simp only [List.foldl_cons]
-    have h1 := Inv.runCb body fuel l cb rest hrem hg hfuel hi hs.1
-    exact Inv.foldCbs body fuel rest { g with rem := rest } _ rfl hg hfuel h1 hs.2
+    have h1 := Inv.runCb body fuel l cb rest hrem hg hfuel hi hs.1 (fun h => (hh h).1)
+    exact Inv.foldCbs body fuel rest { g with rem := rest } _ rfl hg hfuel h1 hs.2 (fun h => (hh h).2)
 
 end Once
